@@ -127,17 +127,26 @@ def run_engine(hbin, seed, tier, only=None, mult=None):
 
 
 def shrink(hbin, f):
-    """minimise a NEW failure (child processes; bounded by VERIF_ROBUST_SHRINK_SECS)"""
+    """confirm and minimise a NEW failure (child processes; bounded by VERIF_ROBUST_SHRINK_SECS).
+    Returns (input line, min_len, tries, reproduced). A time-out is first re-run alone with three
+    times the time limit: if it then finishes, machine load caused it and it is not reported."""
     seed, idx = f["regen"].split(":")
     try:
-        p = vlib.sh([hbin, "robust", "shrink", f["class"], seed, idx], timeout=600,
+        if f["kind"] == "timeout":
+            base = int(os.environ.get("VERIF_ROBUST_TIMEOUT_MS", "10000"))
+            p = vlib.sh([hbin, "robust", "shrink", f["class"], seed, idx], timeout=900,
+                        env={"VERIF_ROBUST_SHRINK": "0", "VERIF_ROBUST_TIMEOUT_MS": str(3 * base)})
+            m = re.search(r"^SHRUNK \S+ kind=(\S+)", p.stdout, flags=re.M)
+            if m and m.group(1) in ("ok", "err", "na"):
+                return f["input"], f["orig_len"], 0, False
+        p = vlib.sh([hbin, "robust", "shrink", f["class"], seed, idx], timeout=900,
                     env={"VERIF_ROBUST_SHRINK_SECS": "40"})
-        m = re.search(r"^SHRUNK .* min_len=(\d+) tries=(\d+) input=(.*)$", p.stdout, flags=re.M)
+        m = re.search(r"^SHRUNK \S+ kind=(\S+) .* min_len=(\d+) tries=(\d+) input=(.*)$", p.stdout, flags=re.M)
         if m:
-            return m.group(3), int(m.group(1)), int(m.group(2))
+            return m.group(4), int(m.group(2)), int(m.group(3)), m.group(1) not in ("ok", "err", "na")
     except Exception:
         pass
-    return f["input"], f["orig_len"], 0
+    return f["input"], f["orig_len"], 0, True
 
 
 def describe_input(line):
@@ -218,7 +227,7 @@ def run(rep, tier, seed, replay):
         disp[d] = disp.get(d, 0) + 1
 
     # ---- robustness engine
-    classes, fails, samples = run_engine(hbin, seed, tier)
+    classes, fails, samples = run_engine(hbin, seed, tier, mult=4 if tier == "thorough" else None)
     directed_info = None
     if directed:
         c2, f2, _ = run_engine(hbin, seed + 1000, tier, only=directed, mult=3)
@@ -238,13 +247,17 @@ def run(rep, tier, seed, replay):
         seen_new.setdefault(f["key"], f)
     with concurrent.futures.ThreadPoolExecutor(max_workers=8) as ex:
         shr = dict(zip(seen_new.keys(), ex.map(lambda f: shrink(hbin, f), seen_new.values())))
+    unreproduced = []
     for f in fails:
         what = "%s in class %s (entry: %s), input class %s: %s at %s; %d case(s)" % (
             f["kind"], f["class"], classes.get(f["class"], {}).get("entry", "?"), f["label"], f["msg"][:160], f["loc"], f["count"])
         if f["key"] in known_keys:
             rep.violation(f["key"], what, None)
             continue
-        line, min_len, tries = shr.get(f["key"], (f["input"], f["orig_len"], 0))
+        line, min_len, tries, reproduced = shr.get(f["key"], (f["input"], f["orig_len"], 0, True))
+        if not reproduced:
+            unreproduced.append({"key": f["key"], "class": f["class"], "kind": f["kind"], "regen": f["regen"]})
+            continue
         replay_obj = {"property": "C11", "class": f["class"], "entry_point": classes.get(f["class"], {}).get("entry", "?"),
                       "failure": f["kind"], "location": f["loc"], "message": f["msg"], "input_class": f["label"],
                       "input_line": line, "input_readable": describe_input(line) if line != "@regen" else "(regenerate)",
@@ -261,7 +274,9 @@ def run(rep, tier, seed, replay):
         for k, v in c["outcomes"].items():
             agg[k] = agg.get(k, 0) + v
     n_classes = len(classes)
-    clean = sum(1 for name in classes if not any(f["class"] == name and f["key"] not in known_keys for f in fails))
+    unrep_keys = {u["key"] for u in unreproduced}
+    clean = sum(1 for name in classes
+                if not any(f["class"] == name and f["key"] not in known_keys and f["key"] not in unrep_keys for f in fails))
     obligations = len(thms) + 1 + 1 + n_classes
     discharged = (len(thms) if ok else 0) + (1 if tie_ok else 0) + 1 + clean
     rep.coverage.update({
@@ -285,6 +300,7 @@ def run(rep, tier, seed, replay):
         "samples": samples[:40],
         "failures_observed": [{"key": f["key"], "class": f["class"], "kind": f["kind"], "location": f["loc"], "input_class": f["label"],
                                "cases": f["count"], "known": f["key"] in known_keys} for f in fails],
+        "unreproduced_failures (not reported: did not recur when the case was re-run alone)": unreproduced,
         "inventory": {"sites": len(cur), "committed_sites": len(old), "dispositions": disp,
                       "new_sites": [{"id": s["id"], "line": s["line"], "code": s["code"]} for s in new][:60],
                       "gone_sites": [s["id"] for s in gone][:60],
